@@ -303,4 +303,33 @@ def check_C20(ctx):
                             "distinct (template, k, keep, entry) runs", assumptions=TRUSTED)
 
 
-CHECKS = {"C11": check_C11, "C09": check_C09, "C16": check_C16, "C17": check_C17, "C15": check_C15, "C10": check_C10, "C12": check_C12, "C08": check_C08, "C13": check_C13, "C20": check_C20}
+# --------------------------------------------------------------------------- C05
+
+ALPHA8 = "{123, 125, 37, 45, 34, 32, 10, 97}"
+ALPHA6 = "{123, 125, 37, 45, 32, 97}"
+
+
+def check_C05(ctx):
+    runs = [(5, ALPHA8)] if ctx.quick else [(6, ALPHA8), (7, ALPHA6)]
+    inv = ["PartitionSoFar", "LinesSoFar", "NoEmptyTokens", "IdentityAtEnd", "AgreesWithFunction", "TextIsMaximal", "EmitCase"]
+    seen = set()
+    for L, alpha in runs:
+        cases, _ = ctx.tlc_mc("MC_C05", mc_cfg({"L": L, "Alpha": alpha}, inv, props=["Progress"]), timeout=3000, heap="16g")
+        cases = [c for c in cases if c["id"] not in seen]
+        seen.update(c["id"] for c in cases)
+        ctx.validate(ctx.run_cases(cases), module="TraceC05", nontrivial_key=lambda o: o["text"], chunk=20000)
+    # pass-through of raw / comment bodies and string values, beyond the alphabet: seeded
+    gen = ctx.gen("passthrough", 400 if ctx.quick else 20000)
+    ctx.validate(ctx.run_cases(gen))
+    gen2 = ctx.gen("scanbytes", 300 if ctx.quick else 20000)
+    ctx.validate(ctx.run_cases(gen2), module="TraceC05", nontrivial_key=lambda o: o["text"])
+    ctx.exhaustive = False
+    return finish(ctx, rule="MC_C05: the scanner as a state machine over every source of <= L symbols of a delimiter-rich "
+                            "alphabet %s (partition/line invariants in every scanner state), each source tokenised by "
+                            "parser.Scan and rendered, validated by TraceC05 (laws on the implementation's own tokens for "
+                            "every input; equality with the reference scanner on the well-formed fragment); plus seeded "
+                            "raw/comment/string pass-through programs (TraceRender) and random byte / UTF-8 sources"
+                            % [r[0] for r in runs], assumptions=TRUSTED)
+
+
+CHECKS = {"C11": check_C11, "C09": check_C09, "C16": check_C16, "C17": check_C17, "C15": check_C15, "C10": check_C10, "C12": check_C12, "C08": check_C08, "C13": check_C13, "C20": check_C20, "C05": check_C05}
